@@ -115,6 +115,14 @@ def passthrough_rule(M, rep, R4, ctx=None):
         n = 0
         for p in ctx.paths(f, "DataArray"):
             evs = [e for e in p.events if e.kind == "layer" and e.op in ("H5DataSet.read_data", "H5DataSet.write_data")]
+            if chk in ("read", "write"):
+                # NumPy indexing never changes an array's shape: neither does a[index] / a[index] = v
+                rs = [e for e in p.events if e.kind == "layer" and e.op in ("H5DataSet.shape@set", "H5DataSet.resize")]
+                if rs:
+                    bad = (p, "a[index]%s changes the array's extent (%s): indexing never resizes, an index beyond the end is refused" % (
+                        " = value" if chk == "write" else "", rs[0].brief()[:90]))
+                    n += 1
+                    break
             if not evs:
                 continue
             n += 1
@@ -163,7 +171,12 @@ def run(M, rep, tier, only=None):
     else:
         seen = {}
         bad = None
-        for p in cctx.paths(f, "File"):
+        try:
+            # helpers inlined (a resolution helper shared by the three levels hides its comparison in a composed call)
+            init_paths = ctx.paths(f, "File", max_paths=20000)
+        except Budget:
+            init_paths = cctx.paths(f, "File")
+        for p in init_paths:
             if not p.normal:
                 continue
             v = p.heap.get((("self",), "_compr"))
